@@ -373,7 +373,10 @@ void execute_decode(const Plan& plan) {
     Section* data_section = nullptr;
     if (plan.get("bind_section", 0)) SIM_CHECK(code.new_section(Out(data_section), ".data", SIZE_MAX, SectionFlags::kNone, 8, 1) == Error::kOk, "c04:setup", "new_section failed");
     auto nops = [&](size_t n) { for (size_t i = 0; i < n; i++) { if (target == 2) static_cast<a64::Assembler&>(a).nop(); else static_cast<x86::Assembler&>(a).nop(); } };
-    auto embed_site = [&](Label l) { size_t at = a.offset(); if (a.embed_label(l, ptr_size) == Error::kOk) sites.push_back(Site{1, a.current_section()->section_id(), at, at + ptr_size, 0, l, false}); };
+    // embedded addresses use the pointer size or - drawn per site - an explicit 4-byte field, which on a 64-bit target can only
+    // hold addresses below 4 GiB (anything else must be reported by relocate_to_base())
+    Rng field_rng = sim::stream(plan.seed, "field");
+    auto embed_site = [&](Label l) { size_t fs = (target != 0 && field_rng.chance(1, 4)) ? 4 : ptr_size; size_t at = a.offset(); if (a.embed_label(l, fs) == Error::kOk) sites.push_back(Site{1, a.current_section()->section_id(), at, at + fs, 0, l, false}); };
     auto mem_site = [&](Label l, int64_t disp) { size_t at = a.offset(); if (static_cast<x86::Assembler&>(a).mov(x86::eax, x86::dword_ptr(l, int32_t(disp))) == Error::kOk) sites.push_back(Site{2, a.current_section()->section_id(), at, a.offset(), uint64_t(disp), l, false}); };
     bool unreachable_jcc_possible = false;
     for (const Op& op : plan.ops) {
@@ -450,8 +453,11 @@ void execute_decode(const Plan& plan) {
                     known ? "known" : "unknown", (unsigned long long)designated, via_table ? " (address table)" : "", (unsigned long long)(s.target & mask));
         }
         else if (s.kind == 1) {
-          uint64_t v = 0; memcpy(&v, img.data() + sec_off + s.start, ptr_size);
+          size_t fs = s.end - s.start;
+          uint64_t v = 0; memcpy(&v, img.data() + sec_off + s.start, fs);
           uint64_t want = (base + code.label_offset_from_base(s.label)) & mask;
+          SIM_CHECK(fs == 8 || want <= 0xffffffffull, "c04:unreachable-target-accepted", "a 4-byte embedded address of a label that ends up at %#llx was relocated without an error (truncated to %#llx)", (unsigned long long)want, (unsigned long long)v);
+          if (fs == 4) sim::count("c04.probe.decode_abs32_field_on_64bit");
           SIM_CHECK(v == want, "c04:wrong-target", "embedded label address at offset %zu of section %u is %#llx after relocation to %#llx, expected %#llx", s.start, s.section_id, (unsigned long long)v, (unsigned long long)base, (unsigned long long)want);
         }
         else {
@@ -468,6 +474,8 @@ void execute_decode(const Plan& plan) {
       // target is out of reach from this base.
       bool legit = false;
       if (unreachable_jcc_possible) for (auto& s : sites) if (s.kind == 0 && s.jcc && !reachable_rel32(base + s.end, s.target)) legit = true;
+      // ... or a 4-byte embedded address on a 64-bit target whose label ends up at or above 4 GiB
+      if (target != 0) for (auto& s : sites) if (s.kind == 1 && s.end - s.start == 4 && ((base + code.label_offset_from_base(s.label)) > 0xffffffffull || base + code.label_offset_from_base(s.label) < base)) { legit = true; sim::count("c04.probe.decode_abs32_field_unreachable_reported"); }
       // (x86-32: an image that would extend past the end of the 4 GiB address space cannot be placed there at all.)
       // ([label+disp] operands use displacements up to 255 here, which may cross the end as well.)
       if (target == 0 && base + code.code_size() + 256 > 0x100000000ull) { legit = true; sim::count("c04.probe.decode_image_wraps_address_space"); }
